@@ -275,6 +275,40 @@ def rule_export_per_layer(rep, repo):
   except PyRaise as e:
     rep.fail("R12", unit, "export-raises", "the export raises %s" % e,
              loc=loc)
+  # one quantizer OBJECT serving two weights of a layer: its recorded scale
+  # is per-call state, so the scale exported for weight i must be the one
+  # recorded when weight i was quantized
+  def stateful(tag):
+    m = qmock(tag, "quantized_bits", alpha="auto_po2", bits=4,
+              keep_negative=True, integer=0, scale=None)
+
+    def call(pe, a, k, m=m):
+      w = pe.as_term(a[0])
+      name = w[1] if w[0] == "sym" else "w"
+      m.attrs["scale"] = Tensor(("sym", "scale_of_" + name), (4,))
+      return Tensor(("app", "Q_" + tag, (), (w,)), (4,))
+    m.attrs["__call__"] = call
+    return m
+  try:
+    shared = stateful("sh")
+    record = {}
+    lyr = layer_mock("Lshared", ["QDense"], [shared, shared],
+                     [S("k0"), S("k1")], record)
+    ent = run_export(repo, [lyr]).get("Lshared", {})
+    scales = ent.get("scales") or []
+    got = [show(fw(e.term)) if isinstance(e, Tensor) else e for e in scales]
+    deps = [sorted(a[1] for a in fw(e.term).atoms() if a[0] == "sym" and
+                   str(a[1]).startswith("scale_of_"))
+            if isinstance(e, Tensor) else None for e in scales]
+    rep.check(deps == [["scale_of_k0"], ["scale_of_k1"]], "R12", unit,
+              "scale-read-after-a-later-call",
+              "a layer whose two weights share one auto_po2 quantizer object "
+              "is exported with scales %r; each weight's scale is the one "
+              "recorded by the call that quantized it: ['scale_of_k0', "
+              "'scale_of_k1']" % (got,), loc=loc, observed=str(got))
+  except PyRaise as e:
+    rep.fail("R12", unit, "export-raises", "the export raises %s on a layer "
+             "with a shared quantizer object" % e, loc=loc)
 
 
 def rule_po2_export_values(rep, repo, tier):
